@@ -645,6 +645,22 @@ class World:
         cfg = b"{}"
         self.ensure_blob(repo, cfg)
         ref = rng.choice(TAGS[:4])
+        if rng.random() < 0.3:
+            # an index naming a child manifest whose blob was deleted through the blob API (its index entry is still there)
+            child = image_manifest(desc(MT_CFG, cfg), [], annotations={"incchild": str(len(self.steps))})
+            self.contents.add(child)
+            self.add(manifest_put(repo, dg("sha256", child), child, ctype=MT_OCI_M))
+            self.add(blob_delete(repo, dg("sha256", child)))
+            body = index_manifest([desc(MT_OCI_M, child)], annotations={"inc": str(len(self.steps))})
+            self.contents.add(body)
+            gid = len(self.steps)
+            self.probe_repo(repo, ("pre", gid))
+            k = self.add(manifest_put(repo, ref, body, ctype=MT_OCI_I))
+            self.steps[k]["probed"] = gid
+            self.probe_repo(repo, ("post", gid))
+            self.refcheck(repo, body, k)
+            self.add(manifest_get(repo, ref))
+            return
         if rng.random() < 0.5:
             gone = b"never-uploaded-%d" % len(self.steps)
             body = image_manifest(desc(MT_CFG, cfg), [desc(MT_LAYER, gone)], annotations={"inc": str(len(self.steps))})
